@@ -14,7 +14,7 @@ def run(item):
     try:
         r = subprocess.run(['git', '-C', wt, 'apply', patch], capture_output=True, text=True)
         if r.returncode: res['error'] = 'patch does not apply: ' + r.stderr; return res
-        subprocess.run(f'rsync -a --exclude replays --exclude .git /verif/ {base}/verif/', shell=True, check=True)
+        subprocess.run(f'rsync -a /tmp/mx/_snap/ {base}/verif/', shell=True, check=True)
         env = dict(os.environ, VERIF_REPO=wt)
         for pid in PIDS:
             t = time.time()
@@ -35,6 +35,9 @@ def run(item):
         shutil.rmtree(base, ignore_errors=True)
     return res
 allres = []
+os.makedirs('/tmp/mx', exist_ok=True)
+for _ in range(5):
+    if subprocess.run('rsync -a --delete --exclude replays --exclude .git /verif/ /tmp/mx/_snap/', shell=True).returncode == 0: break
 with concurrent.futures.ThreadPoolExecutor(max_workers=int(os.environ.get('MATRIX_JOBS', '3'))) as ex:
     for res in ex.map(run, items):
         allres.append(res)
